@@ -1,7 +1,7 @@
 import PmtilesModel.Model.Header
-import Driver.Util
+import Driver.Entries
 namespace Driver.C02
-open Pm Pm.Header
+open Pm Pm.Header Driver
 
 def hdrOfFields (ns : List Int) : Option Header :=
   match ns with
@@ -25,8 +25,6 @@ def fieldsOfHdr (h : Header) : String :=
     toString h.minZoom, toString h.maxZoom, toString h.minLonE7, toString h.minLatE7,
     toString h.maxLonE7, toString h.maxLatE7, toString h.centerZoom, toString h.centerLonE7, toString h.centerLatE7])
 
-def bytesToHex (b : Bytes) : String := toHex (b.map UInt8.ofNat)
-def hexToBytes (s : String) : Option Bytes := (ofHex s).map (·.map UInt8.toNat)
 
 def splitBar (ts : List String) : List String × List String :=
   (ts.takeWhile (· ≠ "|"), (ts.dropWhile (· ≠ "|")).drop 1)
